@@ -330,6 +330,12 @@ func c15r2(w *World, rr *RuleRun) {
 			return
 		}
 		nRet++
+		if len(r.Results) > 0 {
+			if w.FE.knownNonNil(r.Results[len(r.Results)-1]) {
+				rr.At(w, r, "the compact decoder returns only with its input exhausted, a short tail, or an element error", true, "returns a freshly constructed error")
+				return
+			}
+		}
 		w.Require(rr, r, "the compact decoder returns only with its input exhausted, a short tail, or an element error", func(alt *Alt) (bool, string) {
 			for k, t := range alt.terms {
 				sign := alt.facts[k]
@@ -524,7 +530,12 @@ func c15r5(w *World, rr *RuleRun) {
 	}
 	reach := w.CG.Reach(roots, func(e *Edge) bool { return w.P.IsLib(e.Callee) })
 	// part of the encoded message: a field selection whose base involves a parameter/receiver
-	inMessage := func(t *Term) bool {
+	var inMessage func(t *Term) bool
+	inMessage = func(t *Term) bool {
+		// the storage of append(dst, src...) is dst's (or fresh): what is appended does not matter
+		if t.Op == OpCall && t.Name == "builtin.append" && len(t.Args) > 0 {
+			return inMessage(t.Args[0])
+		}
 		hit := false
 		t.Walk(func(x *Term) bool {
 			if x.Op == OpField {
@@ -705,7 +716,23 @@ func (w *World) checkEncodersVerbatim(rr *RuleRun, roots []*ssa.Function) {
 				if !carries(t) {
 					continue
 				}
-				if isFieldTerm(t, ipF) && t.Args[0].Op == OpParam {
+				var verb func(x *Term) bool
+				verb = func(x *Term) bool {
+					if isFieldTerm(x, ipF) && x.Args[0].Op == OpParam {
+						return true
+					}
+					// append(buf, me.IP...) carries the bytes as they are
+					if x.Op == OpCall && x.Name == "builtin.append" {
+						for _, a := range x.Args {
+							if carries(a) && !verb(a) {
+								return false
+							}
+						}
+						return true
+					}
+					return false
+				}
+				if verb(t) {
 					verbatim++
 				} else {
 					converted++
